@@ -379,6 +379,8 @@ class Interp(object):
             return BoundMethod(raw.__func__, cls if cls is not None else obj.cls)
         if isinstance(raw, (types.FunctionType, Closure, ModelFn)):
             return BoundMethod(raw, obj)
+        if isinstance(raw, types.WrapperDescriptorType) and raw in (dict.__init__, dict.__setitem__, dict.__delitem__):
+            return BoundMethod(raw, obj)
         return raw
 
     def get_attr(self, obj, name, where=None):
